@@ -73,6 +73,7 @@ Dispatch(e) == LET k == e.k  a == e.a IN
     \/ e.op = "At"           /\ At(k, a.c, a.i)
     \/ e.op = "Read"         /\ Read(k, a.path, a.i)
     \/ e.op = "RefWrite"     /\ RefWrite(k, a.path, a.i, a.wk, a.v, a.j)
+    \/ e.op = "RefPair"      /\ RefPair(k, a.self, a.p1, a.i, a.p2, a.j, a.pk, a.vc)
 
 TNext ==
     /\ l <= Len(JsonTrace)
